@@ -142,6 +142,7 @@ var identPool = []ident{
 	{"client", "pc", "", "Exodus 0.9.1"},
 	{"client", "pc", "el", "Ψ 0.11"},
 	{"client", "pc", "en", "Psi 0.11"},
+	{"client", "pc", "en-US", "Psi 0.11"}, // language tags are hashed as they are written
 	{"client", "web", "", "w"},
 	{"client", "web-embedded", "", "a<b 100%v"},
 	{"client-x", "pc", "", ""},
